@@ -288,6 +288,11 @@ def check_init(fn):
 
 def translate():
     mod = ast.parse((REPO / SRC).read_text())
+    try:
+        import guard
+        guard.check("_backends/_asyncio.py", mod, ["Lock"])
+    except guard.GuardError as e:
+        raise Refuse(str(e))
     classes = [n for n in mod.body if isinstance(n, ast.ClassDef) and n.name == "Lock"]
     if len(classes) != 1:
         raise Refuse(f"expected exactly one class Lock in {SRC}, found {len(classes)}")
